@@ -80,7 +80,7 @@ fn simplify_op(o: &Op) -> Vec<Op> {
         Op::Sleep(n) if *n > 1 => c.push(Op::Sleep(1)),
         Op::Yield(n) if *n > 1 => c.push(Op::Yield(1)),
         Op::Fork { ops, .. } if ops.len() == 1 => c.push(ops[0].clone()),
-        Op::Join(ops) if ops.len() == 1 => c.push(ops[0].clone()),
+        Op::Join(ops) | Op::Race(ops) if ops.len() == 1 => c.push(ops[0].clone()),
         _ => {}
     }
     match o {
@@ -101,7 +101,7 @@ fn for_each_list(sc: &mut Scenario, f: &mut dyn FnMut(&mut Vec<Op>)) {
             match o {
                 Op::Tell { m, .. } | Op::TellT { m, .. } | Op::Ask { m, .. } | Op::AskT { m, .. } | Op::AskJoin { m, .. } | Op::TellUs { m, .. } | Op::AskUs { m, .. } => rec(&mut m.steps, f),
                 Op::Fork { ops, .. } => rec(ops, f),
-                Op::Join(ops) => rec(ops, f),
+                Op::Join(ops) | Op::Race(ops) => rec(ops, f),
                 Op::Cancel { op, .. } => {
                     if let Op::Tell { m, .. } | Op::TellT { m, .. } | Op::Ask { m, .. } | Op::AskT { m, .. } | Op::AskJoin { m, .. } | Op::TellUs { m, .. } | Op::AskUs { m, .. } = &mut **op {
                         rec(&mut m.steps, f)
